@@ -12,6 +12,8 @@ impl Sched for Rendezvous {
     fn at(&self, tag: u32, p: Point) {
         // the batch controller (tag 1000) is not one of the systems that meet
         if p != Point::Run || tag >= 1000 { return; }
+        // (once one head has given up, the others of this repetition do not wait their 5 s each)
+        if *self.timed_out.lock().unwrap() { return; }
         let mut g = self.arrived.lock().unwrap();
         g.0 += 1;
         // (arrivals beyond `width` belong to a later dispatch of the same repetition: they neither count nor wait)
@@ -35,12 +37,17 @@ fn flat(width: u32) -> Vec<Reg> {
     (1..=width).map(|t| Reg::Sys { tag: t, name: format!("s{}", t), deps: vec![], reads: vec![], writes: vec![100 + t], time: 3, kind: SysKind::Dynamic }).collect()
 }
 
-/// cfg: user | default | batch | async | batch2 | batchdeep | foreign | defforeign (default pool) | asyncforeign | asyncdefforeign | asyncdouble | defbatch | batchfirst ; returns "arrived=<max simultaneously inside>;timeout=<0|1>;ok=<0|1>" per repetition
+/// cfg: user | default | batch | async | batch2 | batchdeep | seqbatch | afterpanic | foreign | defforeign (default pool) | asyncforeign | asyncdefforeign | asyncdouble | defbatch | batchfirst ; returns "arrived=<max simultaneously inside>;timeout=<0|1>;ok=<0|1>" per repetition
 pub fn observe(cfg: &str, width: u32, pool_size: usize, reps: u32, limit_ms: u64) -> String {
     let rec = Recorder::new(MapMode::B);
     rec.set_caller();
     let pool = Arc::new(rayon::ThreadPoolBuilder::new().num_threads(pool_size).build().unwrap());
-    let regs: Vec<Reg> = if cfg == "batch" || cfg == "batchfirst" {
+    let regs: Vec<Reg> = if cfg == "afterpanic" {
+        // the wide stage plus one system (tag 999) that panics in a SEQUENTIAL dispatch made before the measured ones
+        let mut v = flat(width);
+        v.push(Reg::Sys { tag: 999, name: "p".into(), deps: vec![], reads: vec![], writes: vec![399], time: 3, kind: SysKind::Dynamic });
+        v
+    } else if cfg == "batch" || cfg == "batchfirst" || cfg == "seqbatch" {
         vec![Reg::Batch { tag: 1000, name: "b".into(), deps: vec![], creads: vec![], cwrites: vec![], time: 5, count: 1,
                           ctl: CtlKind { menu: 0, multi: false }, inner: flat(width) }]
     } else if cfg == "batch2" {
@@ -75,7 +82,7 @@ pub fn observe(cfg: &str, width: u32, pool_size: usize, reps: u32, limit_ms: u64
         let o = build(&regs, &rec, None);
         match old { Some(v) => std::env::set_var("RAYON_NUM_THREADS", v), None => std::env::remove_var("RAYON_NUM_THREADS") }
         o
-    } else if cfg == "batch" || cfg == "batch2" || cfg == "batchdeep" {
+    } else if cfg == "batch" || cfg == "batch2" || cfg == "batchdeep" || cfg == "seqbatch" {
         // the user's pool is attached to the outermost builder only (add_batch hands it on to the batches)
         // (any default pool created on the way - for a batch nested deeper than one level - is kept tiny, so that it shows
         // if such a batch does not end up on the user's pool)
@@ -136,10 +143,19 @@ pub fn observe(cfg: &str, width: u32, pool_size: usize, reps: u32, limit_ms: u64
         let mut world = make_world(&regs, MapMode::B);
         let _ = catch_unwind(AssertUnwindSafe(|| d.setup(&mut world)));
         let _ = rec.take();
+        if cfg == "afterpanic" {
+            // a panic caught in a sequential dispatch must leave nothing behind that serialises later parallel dispatches
+            rec.faults.lock().unwrap().insert(999);
+            let r = catch_unwind(AssertUnwindSafe(|| d.dispatch_seq(&world)));
+            rec.faults.lock().unwrap().clear();
+            let _ = rec.take();
+            if r.is_ok() { return "builderr".into(); }
+        }
         rec.set_sched(rv.clone());
         for _ in 0..reps {
             rv.reset(); *rv.max_seen.lock().unwrap() = 0;
-            let r = catch_unwind(AssertUnwindSafe(|| d.dispatch(&world)));
+            // seqbatch: the OUTER dispatch is sequential; the batch's inner dispatch still is a parallel one
+            let r = catch_unwind(AssertUnwindSafe(|| if cfg == "seqbatch" { d.dispatch_seq(&world) } else { d.dispatch(&world) }));
             res.push(format!("arrived={}:timeout={}:ok={}", *rv.max_seen.lock().unwrap(), *rv.timed_out.lock().unwrap() as u8, r.is_ok() as u8));
             if *rv.timed_out.lock().unwrap() { break; }
         }
